@@ -20,6 +20,9 @@ MOD = "harness.C01_allocations"
 FLAGS = ["SEAWEED", "OUTDOOR_GROWING", "STORED_FOOD", "MEAT", "METHANE_SCP", "CELLULOSIC_SUGAR"]
 
 
+DISTINCT_WASTE = dict(seaweed=8.1, stored_food=6.08, meat=4.0, crops_food=5.5, methane_scp=3.3, cellulosic_sugar=2.2)
+
+
 def _kind(name):
     return re.sub(r" \[month \d+\]", "", name)
 
@@ -147,6 +150,13 @@ def main(tier, seed, only=None):
                         for rot in (False, True):
                             for retail in (0.0, 6.08, 24.98):
                                 cases.append(dict(N=N, opt=opt, store=store, flags=fl, retail=retail, rotation=rot))
+    # every food with its own retail waste rate: a constraint that grosses one food up with another food's rate is only visible when the rates differ
+    for N in ([5] if not thorough else [5, 14]):
+        for opt in ("to_humans", "to_animals"):
+            for store in (True, False):
+                cases.append(dict(N=N, opt=opt, store=store, flags=full, retail=6.08, retail_by=DISTINCT_WASTE))
+    # the optimiser branches on the population (looser pins under 10 million people)
+    cases += [dict(N=5, opt=o, store=s, flags=full, retail=6.08, pop=p) for o in ("to_humans", "to_animals") for s in (True, False) for p in (5e5, 9.9e6)]
     if thorough:
         cases += [dict(N=14, opt=o, store=s, flags=dict.fromkeys(FLAGS, True), pop=p, symbolic_area=a) for o in ("to_humans", "to_animals") for s in (True, False) for p in (5e6, 8e9) for a in (True, False)]
         cases += [dict(N=n, opt=o, store=True, flags=dict.fromkeys(FLAGS, True)) for n in (36, 48) for o in ("to_humans", "to_animals")]
@@ -159,7 +169,7 @@ def main(tier, seed, only=None):
                               "add_percentage_intake_constraints", "assign_predetermined_human_consumption_of_foods", "add_maximize_min_month_objective_to_model",
                               "add_maximize_sum_total_feed_used_by_animals"],
                    bounds="months N in %s; all 64 ADD_* combinations at N=4 (6 representative ones at longer horizons); both round types; storage between years on/off; relocation flag on/off; "
-                          "retail waste %s; population 5e7 (thorough: 5e6, 8e9)" % (sorted({c["N"] for c in cases}), sorted({c.get("retail", 6.08) for c in cases})),
+                          "retail waste %s for every food, and one setting with six different per-food rates; population 5e7, 5e5 and 9.9e6 (thorough also 5e6, 8e9)" % (sorted({c["N"] for c in cases}), sorted({c.get("retail", 6.08) for c in cases})),
                    symbolic="every supply: initial stock, monthly crops, slaughter, SCP, cellulosic sugar, milk, fish, greenhouse, feed/biofuel charge, ceilings, pinned human consumption, built seaweed area; and every LP variable",
                    assumptions=["supplies >= 0; built seaweed area non-decreasing and >= initial area", "coefficients concrete: retail waste, seaweed kcal per ton, densities, harvest loss, growth rates, intake caps, population",
                                 "entailment checked in the epsilon-relaxed form (1e-9 x (1 + sum of all quantities)) because code and audit multiply float coefficients in different orders",
